@@ -16,43 +16,75 @@ from contextlib import contextmanager
 from pathlib import Path
 
 ID = "C07"
-LEVEL_TEXT = ("Theorems for all inputs: Griffe's deque-based c3linear_merge equals CPython's index-vector pmerge on every list of lists "
-              "(same result, same failures), terminates, and satisfies the C3 conditions (no duplicates, exactly the input elements, every "
-              "input order preserved); Class._mro equals CPython's mro_implementation (fast path, duplicate-base check, pmerge) on every "
-              "table a Python program can express, of any size; on arbitrary tables its recursion stops within #classes+1 levels and a class "
-              "that reaches a cycle is reported uncomputable (and 'cycle detected' is only said when there is one); eliding `object` from CPython's "
-              "lists is sound (merge-level and table-level theorems); inherited_members = nearest "
-              "definition along the MRO, never a declared name; all_members = CPython's lookup through tp_mro; inherited aliases live under the "
-              "subclass's path. The model is tied to the code by exhaustive hierarchies (N<=5 quick, N<=6 thorough, <=3 ordered bases), random "
-              "hierarchies with members across modules, packages loaded from generated source through imports/aliases, cyclic and arbitrary tables, "
-              "and raw list-of-lists merges, each compared three ways (model, Griffe, real type()).")
-LEVEL_NOTE = ("Trusted: Coq kernel, extraction, the table<->Griffe-object / table<->source abstraction in this module, CPython's type() as authority. "
-              "`object` is elided from the working spec model, but the elision is itself a theorem (C07_mro_object_elision / C07_merge_object_elision) "
-              "and the spec with `object` spelled out is what (O) compares with real __mro__. Modelled rather than verified: classes are identified with "
-              "their paths (the `seen` tuple holds paths); name resolution of base expressions (Expr.canonical_path, alias resolution) is exercised "
-              "by the source stream but not modelled -- the model starts from resolved bases. All 14 theorems are closed under the global context.")
+LEVEL_TEXT = ("Theorems for all inputs (28, all closed under the global context). C3 merge: Griffe's deque-based c3linear_merge equals CPython's "
+              "index-vector pmerge on every list of lists (same result, same failures), terminates, satisfies the C3 conditions; empty lists are "
+              "neutral; erasing a class that is last wherever it occurs commutes with the merge, failures included (and the hypothesis is needed). "
+              "Tables: Class._mro equals CPython's mro_implementation (fast path, duplicate-base check, pmerge) on every table a Python program can "
+              "express, of any size; on arbitrary tables its recursion stops within #classes+1 levels and a class that reaches a cycle is reported "
+              "uncomputable ('cycle detected' only when there is one); eliding `object` is sound; for a root class the collection does not hold "
+              "(typing.Generic, an unloaded package) Griffe's MRO on the collection without it is CPython's MRO with it erased whenever it is written "
+              "last and is last in every merged linearisation (decidable predicate; otherwise refuted by a 7-class witness = finding C07-F1). "
+              "Members: inherited_members = nearest definition along the MRO, never a declared name; all_members = CPython's lookup through tp_mro; "
+              "inherited aliases live under the subclass's path. Base expressions: resolution of a base (Expr.canonical_path through Object.resolve, "
+              "get_member through aliases, final_target with its cycle guards, the except-and-drop and is_class filter) always returns, is transparent "
+              "for subscripts, yields an object that is never an alias, is sound against the Python reading of the same expression through any alias "
+              "chain (what Griffe resolves to a class IS Python's base), so resolved_bases is a subsequence of Python's bases and all of them when "
+              "nothing is dropped; the one way the readings differ on a resolved base is an assigned name (`Base = K1`, refuted = finding C07-F2). "
+              "The models are tied to the code by exhaustive hierarchies (N<=5 quick, N<=6 thorough, <=3 ordered bases), random hierarchies with "
+              "members across modules, packages generated as source with 8 import styles x subscripts x assignment aliases x Generic[T]/object "
+              "bases x holder classes x alias members over module names that extend each other and nested packages -- each loaded by the visitor AND "
+              "by the inspector and compared with the model, the real import and type() --, alias mazes (cyclic / dangling imports), cyclic and "
+              "arbitrary tables, load histories, and raw list-of-lists merges.")
+LEVEL_NOTE = ("Trusted: Coq kernel, extraction, the abstractions in this module (table <-> Griffe objects / source; program specification -> source "
+              "files + heap of objects, validated on every program by the real import's __bases__/__mro__ and by Griffe's own resolved_bases), "
+              "CPython's type() as authority. `object` is elided from the working spec model; the elision is a theorem and the spec with `object` "
+              "and external classes spelled out (cpython_mro_ext, incl. typing's __mro_entries__ erasure of `Generic[T]` before a later subscripted "
+              "base) is what (O) compares with real __mro__. Modelled rather than verified: classes are identified with their paths; alias "
+              "resolution is modelled at the level of its outcome (object found / KeyError / cyclic), not of Alias._target caching (C06's subject); "
+              "flow-insensitive scopes (each name bound once); no theorem links the heap without externals to the heap with them (checked by (O) "
+              "only); C07_hidden_last_only is stated for ONE hidden root class (object is covered by the elision theorems), several hidden classes "
+              "at once are checked, not proved. Known findings (classified only when the extracted model reproduces both Griffe's and CPython's "
+              "answer on that input): C07-F1, C07-F2.")
 MODEL = ("Model.C07_bases", "run_C07b")          # run_C07b falls through to Model.C07_mro.run_C07 for the table-level requests
 MODEL_TARGETS = ["Model/C07_bases.vo"]
-COQ_TARGETS = ["Proofs/C07_mro.vo"]
+COQ_TARGETS = ["Proofs/C07_mro.vo", "Proofs/C07_bases.vo", "Proofs/C07_hidden.vo"]
 RULE = ("(1) every hierarchy of N<=5 (quick) / N<=6 (thorough) classes where class i takes 0..3 ordered distinct bases among classes 0..i-1 "
         "(depth-first, each new class checked once; classes below a TypeError class are kept as 'cannot exist'); "
-        "(2) seeded random ordered tables, 2..8 classes over 1..3 modules, <=4 bases, occasional duplicate base, random members from a pool of 5 names; "
-        "(3) packages rendered to source with 6 import styles (from-import, as-alias, import pkg.mod, from pkg import mod, import as, re-export via "
-        "__init__), loaded with griffe.load and imported for real; (4) arbitrary tables: exhaustive N<=3 with any <=3 bases incl. self/forward, random "
-        "N<=6 with back edges, unresolvable and non-class bases; (5) cyclic tables as source, one module per class; (6) raw c3linear_merge calls on "
-        "lists of lists with repeats (exhaustive small + random); (7) load histories: 2-3 generated packages whose classes inherit across packages "
-        "(from-import, re-export via __init__, attribute-style base), loaded into ONE fresh GriffeLoader in every order, mro()/inherited_members queried "
-        "between loads (compared with the model on the partial collection), final answers compared with the real import of all packages and across orders. non-trivial = the class has >=2 bases, or is uncomputable, or inherits a member; "
-        "distinct by canonical case value")
+        "(2) seeded random ordered tables, 2..8 classes over 1..3 modules (half of the time named m / m_b / m1 / m10 / mod: names extending each other), "
+        "<=4 bases, occasional duplicate base, random members from a pool of 5 names; "
+        "(3) packages rendered to source with 6 import styles (+ classes nested in holder classes), loaded with griffe.load and imported for real; "
+        "(4) arbitrary tables: exhaustive N<=3 with any <=3 bases incl. self/forward, random N<=6 with back edges, unresolvable and non-class bases; "
+        "(5) cyclic tables as source, one module per class; (6) raw c3linear_merge calls on lists of lists with repeats (exhaustive small + random); "
+        "(7) load histories: 2-3 generated packages (names extending each other) whose classes inherit across packages, loaded into ONE fresh "
+        "GriffeLoader in every order, queried between loads, compared with the model on the partial collection, the real import and across orders; "
+        "(8) programs: 1-4 modules drawn from a pool of dotted names (shapes/shapes_base/sh, core/core2, m1/m10, sub/subs, sub.mod/sub.mod_x, "
+        "sub.deep.leaf: prefixes, underscores, nested packages with and without classes in __init__), 2-7 classes in module order, each base "
+        "written in one of 8 styles (from, from-as, import dotted, from parent import module, relative, import as, re-export through the top "
+        "__init__, wildcard) or by its local / holder-qualified name, optionally through 1-2 assignment aliases, optionally subscripted ([int] / [T]) "
+        "when the base is generic; Generic[T] / typing.Generic[T] (last, rarely elsewhere) and explicit object (last, rarely first) bases; members "
+        "own or imported into the class body; each program is checked class by class for the visitor tree and for the inspector tree "
+        "(force_inspection) against the model, the real import and type(); corpus/C07/programs.json first; "
+        "(9) alias mazes: 3 modules whose names are bound by random import-from chains incl. cycles, self-imports, dangling and out-of-package "
+        "targets, module aliases and assignments, classes deriving through them (model vs Griffe, never raises / hangs). "
+        "non-trivial = the class has >=2 bases, or is uncomputable, or inherits a member; distinct by canonical case value. A failing input is "
+        "shrunk greedily (drop classes / bases / members / spellings / modules while the same disagreement persists) before it is reported.")
 TRUSTED = ["abstraction: a table row [path, bases, members] is built as griffe.Class(name, bases=[paths]) inside griffe.Module objects of one "
            "ModulesCollection, or rendered to Python source; the same row is built with type(name, bases, dict) for the authority",
+           "abstraction: render_program maps a program specification to source files and to the heap of objects (module / class / alias with target "
+           "path / assigned name with value / other) that the visitor is expected to build; checked on every program: Griffe's resolved_bases (paths, "
+           "kinds) = the model's on that heap, the model's Python bases = the real __bases__, the real __mro__ = type() over those bases",
            "functools._c3_merge (CPython's pure-Python C3 merge used by singledispatch) is the authority for merges of raw lists that no class "
-           "statement can produce; typeobject.c's pmerge itself is only reachable through type()"]
-ASSUMPTIONS = ["`object` never appears as an explicit base in the generated hierarchies (Griffe would drop it as unresolvable; CPython allows `class C(A, object)`)",
-               "items merged by c3linear_merge are Class objects, always truthy (Object.__bool__ returns True), so `if head and ...` only filters the None head of an empty deque",
+           "statement can produce; typeobject.c's pmerge itself is only reachable through type()",
+           "typing.Generic stands for 'a root class the collection does not hold'; the authority builds it as a plain root class with type()"]
+ASSUMPTIONS = ["items merged by c3linear_merge are Class objects, always truthy (Object.__bool__ returns True), so `if head and ...` only filters the None head of an empty deque",
                "a class is identified by its path (Class._mro's `seen` holds paths); tables never contain two classes with one path",
-               "C07_mro_eq_cpython and C07_all_members_eq_getattr are stated for ordered tables (every base created before the class): the hierarchies Python source can express; "
-               "for other acyclic tables the equality is checked by (C)+(O) only"]
+               "C07_mro_eq_cpython, C07_all_members_eq_getattr and C07_hidden_last_only are stated for ordered tables (every base created before the class): the "
+               "hierarchies Python source can express; for other acyclic tables the equality is checked by (C)+(O) only",
+               "generated programs bind each name once and before use (flow-insensitive scopes); classes nested at most one level (Object.resolve leaking through "
+               "several enclosing classes is C04's finding); base expressions are names, attribute chains and subscripts of those (calls, conditional "
+               "expressions and bases inherited as attributes of another class -- `class C(Sub.Inner)` with Inner defined in a base of Sub -- are not generated)",
+               "attr_leaf: an attribute has no members in the collection (hypothesis of the soundness theorems; true of every tree the agents build)",
+               "inspected trees: dunder members (__dict__, __orig_bases__, ...) are left out of the member comparison; which members the inspector creates is C17's subject"]
 
 POOL = ["f0", "f1", "x0", "x1", "N0"]
 
@@ -85,7 +117,7 @@ def make_member(name):
     return griffe.Attribute(name)
 
 
-EXT = ["nowhere.Missing", "{mod0}.func", "{mod0}"]     # unresolvable, a function, a module
+EXT = ["nowhere.Missing", "{mod0}.func", "{mod0}", "{mod0}.loopX"]     # unresolvable, a function, a module, an alias cycle created as already resolved
 
 
 def build_direct(table):
@@ -95,6 +127,7 @@ def build_direct(table):
     mods = {}
     n = len(table)
     mod0 = table[0][0].rsplit(".", 1)[0]
+    uses_loop = any(b >= n and (b - n) % len(EXT) == 3 for _, bases, _ in table for b in bases)
     classes = []
     for path, bases, members in table:
         modname, cname = path.rsplit(".", 1)
@@ -102,6 +135,18 @@ def build_direct(table):
             m = griffe.Module(modname, filepath=None)
             col.set_member(modname, m)
             m.set_member("func", griffe.Function("func"))
+            # two aliases resolved to each other from the start (no resolve_target involved): only final_target's own guard stops this
+            if uses_loop and modname == mod0 and HUNG["n"] < 3:
+                ay = griffe.Alias("loopY", f"{modname}.loopX")
+                m.set_member("loopY", ay)
+                ax = griffe.Alias("loopX", ay)
+                m.set_member("loopX", ax)
+                try:
+                    with watchdog(5):
+                        ay.target = ax          # the setter stores the target, then notices the cycle
+                except BaseException as e:  # noqa: BLE001
+                    if isinstance(e, KeyboardInterrupt):
+                        raise
             mods[modname] = m
         bs = [table[b][0] if b < n else EXT[(b - n) % len(EXT)].format(mod0=mod0) for b in bases]
         c = griffe.Class(cname, bases=bs)
@@ -112,16 +157,21 @@ def build_direct(table):
     return classes
 
 
+HUNG = {"n": 0}          # how often Griffe did not return; after a few the alias-loop externals are no longer built (each costs a watchdog period)
+
+
 def mro_of(cls):
     """['ok', [paths]] | ['err', 'cycle'|'inconsistent'] | ['exc', type name]."""
     try:
-        with watchdog():
+        with watchdog(6):
             return ["ok", [c.path for c in cls.mro()]]
     except ValueError as e:
         return ["err", "cycle" if "cycle" in str(e).lower() else "inconsistent"]
     except BaseException as e:  # noqa: BLE001  RecursionError, Watchdog, AttributeError...
         if isinstance(e, KeyboardInterrupt):
             raise
+        if isinstance(e, Watchdog):
+            HUNG["n"] += 1
         return ["exc", type(e).__name__]
 
 
@@ -234,6 +284,10 @@ def check_classes(ctx, stream, table, objs, which, model_rows, extra_case=None):
         g_impl_ids = ["ok", [ids.get(p, -1) for p in g_impl[1]]] if g_impl[0] == "ok" else g_impl
         if g_model != g_impl_ids:
             ctx.tie_failure("correspondence", "griffe_mro(model) vs Class.mro()", {"model": g_model, "impl": g_impl}, case)
+        if g_impl[0] == "exc":
+            # whatever the hierarchy (cyclic, unresolvable, alias loops): an answer or ValueError, never another exception or a hang
+            ctx.property_failure(case, {"what": "mro() raised something other than ValueError, or did not return", "griffe": g_impl})
+            continue
         if "members_exc" in obs:
             ctx.tie_failure("correspondence", "inherited_members raised", obs["members_exc"], case)
             ctx.property_failure(case, {"griffe": obs["members_exc"], "cpython": "attribute lookup does not raise"})
@@ -645,7 +699,7 @@ def random_arbitrary_table(rng, external=False):
         for _ in range(k):
             r = rng.random()
             if external and r < 0.25:
-                b = n + rng.randrange(3)
+                b = n + rng.randrange(len(EXT))
             elif r < 0.7 and i > 0:
                 b = rng.randrange(i)
             else:
@@ -1020,6 +1074,21 @@ def shrink_case(case, detail):
         return None
     if "prog" in case:
         return _replay_program(ctx, case)
+    if case.get("stream") == "alias-maze":
+        import griffe
+        root = ctx.scratch / "replay"
+        write_package(root, case["pkg"], case["files"])
+        for rel, src in sorted(case["files"].items()):
+            print(f"--- {case['pkg']}/{rel}\n{src}")
+        try:
+            with watchdog(30):
+                loaded = griffe.load(case["pkg"], search_paths=[str(root)])
+                if case.get("class"):
+                    print("class  :", case["class"])
+                    print("griffe :", observe2(loaded[case["class"][len(case["pkg"]) + 1:]]))
+        except BaseException as e:  # noqa: BLE001
+            print("griffe raised / hung:", type(e).__name__, e)
+        return 0
     if "bases_of" in case:
         table = [[f"m.K{i}", list(bs), []] for i, bs in enumerate(case["bases_of"])]
     elif "table" in case:
@@ -1674,6 +1743,20 @@ def check_inspected_row(ctx, case, mrow, obs, o, paths, c):
     return ok
 
 
+def stream_corpus_programs(ctx, with_model=True):
+    """corpus/C07/programs.json: small programs kept from past disagreements (shrunk failing inputs), replayed first."""
+    fp = Path(__file__).resolve().parents[2] / "corpus" / "C07" / "programs.json"
+    if not fp.exists():
+        return
+    root = ctx.scratch / "corpus-prog"
+    root.mkdir(parents=True, exist_ok=True)
+    progs = [e["prog"] for e in json.loads(fp.read_text())["programs"]]
+    mouts = ctx.model([render_program(p)["request"] for p in progs]) if with_model else [None] * len(progs)
+    for prog, mout in zip(progs, mouts):
+        for case, detail, finding in eval_program(ctx, prog, root, mout, stream="corpus-program"):
+            fail(ctx, case, detail, finding)
+
+
 def stream_programs(ctx, count, with_model=True, gaps=True, inspected=True):
     root = ctx.scratch / "prog"
     root.mkdir(parents=True, exist_ok=True)
@@ -1798,6 +1881,126 @@ def shrink_program_case(case, detail):
     return cs, d
 
 
+# ------------------------------------------------------------------------------------------------ (9) alias mazes: resolution of bases on packages Python could not import
+
+def gen_maze(rng, tag):
+    """Modules a, b, c of one package with classes in `a`, and names bound by arbitrary import-from statements (chains,
+    cycles, dangling targets, targets outside the package), assignments and module aliases; then classes whose bases go through
+    those names.  No CPython authority (most of these packages do not import): model vs Griffe, plus 'never raises / hangs'."""
+    pkg = f"c07z{tag}"
+    mods = ["a", "b", "c"]
+    P = {m: [pkg, m] for m in mods}
+    heap = [[[pkg], ["mod"]]] + [[P[m], ["mod"]] for m in mods]
+    lines = {m: [] for m in mods}
+    nk = rng.randint(1, 3)
+    xclasses = []
+    for i in range(nk):
+        lines["a"].append(f"class K{i}:\n    class N{i}: pass")
+        heap.append([P["a"] + [f"K{i}"], ["cls", i]])
+        xclasses.append([P["a"] + [f"K{i}"], P["a"], [], [], []])
+    for i in range(nk):
+        heap.append([P["a"] + [f"K{i}", f"N{i}"], ["cls", nk + i]])
+        xclasses.append([P["a"] + [f"K{i}", f"N{i}"], P["a"] + [f"K{i}"], [], [], []])
+    names = [f"X{j}" for j in range(rng.randint(2, 5))]
+    bound = {m: [] for m in mods}
+    for m in ("b", "c"):
+        for nm in names:
+            r = rng.random()
+            if r < 0.35:
+                k = rng.randrange(nk)
+                lines[m].append(f"from {pkg}.a import K{k} as {nm}")
+                heap.append([P[m] + [nm], ["alias", P["a"] + [f"K{k}"]]])
+            elif r < 0.62:
+                src_mod, tgt = rng.choice(["b", "c"]), rng.choice(names)
+                lines[m].append(f"from {pkg}.{src_mod} import {tgt} as {nm}")
+                heap.append([P[m] + [nm], ["alias", P[src_mod] + [tgt]]])
+            elif r < 0.68:
+                lines[m].append(f"from {pkg}.{rng.choice(mods)} import Nope as {nm}")
+                heap.append([P[m] + [nm], ["alias", [pkg, lines[m][-1].split()[1].split(".")[1], "Nope"]]])
+            elif r < 0.74:
+                lines[m].append(f"from os import path as {nm}")
+                heap.append([P[m] + [nm], ["alias", ["os", "path"]]])
+            elif r < 0.84 and bound[m]:
+                other = rng.choice(bound[m])
+                lines[m].append(f"{nm} = {other}")
+                heap.append([P[m] + [nm], ["attr", ["n", other]]])
+            elif r < 0.92:
+                lines[m].append(f"import {pkg}.a as {nm}")
+                heap.append([P[m] + [nm], ["alias", P["a"]]])
+            else:
+                continue
+            bound[m].append(nm)
+    ci = 2 * nk
+    for m in ("b", "c"):
+        for _ in range(rng.randint(1, 3)):
+            exprs, texts = [], []
+            for _ in range(rng.randint(1, 3)):
+                nm = rng.choice(bound[m] or names)
+                parts = [nm]
+                r = rng.random()
+                if r < 0.25:
+                    parts.append(rng.choice([f"K{rng.randrange(nk)}", f"N{rng.randrange(nk)}", "Nope"]))
+                    if rng.random() < 0.3:
+                        parts.append(f"N{rng.randrange(nk)}")
+                bx, text = _bx(parts), ".".join(parts)
+                if rng.random() < 0.2:
+                    bx, text = ["s", bx], text + "[int]"
+                exprs.append(bx)
+                texts.append(text)
+            lines[m].append(f"class C{ci}({', '.join(texts)}):\n    pass")
+            heap.append([P[m] + [f"C{ci}"], ["cls", ci]])
+            xclasses.append([P[m] + [f"C{ci}"], P[m], exprs, [], []])
+            ci += 1
+    files = {"__init__.py": ""}
+    for m in mods:
+        files[f"{m}.py"] = "\n".join(lines[m]) + "\n"
+    return {"pkg": pkg, "files": files, "heap": heap, "xclasses": xclasses, "request": ["prog", [heap, xclasses, [], OBJECT_PATH]]}
+
+
+def stream_mazes(ctx, count):
+    import griffe
+    root = ctx.scratch / "maze"
+    root.mkdir(parents=True, exist_ok=True)
+    mazes = [gen_maze(ctx.rng, f"{ctx.seed % 100000}x{k}") for k in range(count)]
+    mouts = ctx.model([z["request"] for z in mazes])
+    for z, mout in zip(mazes, mouts):
+        write_package(root, z["pkg"], z["files"])
+        case0 = {"stream": "alias-maze", "files": z["files"], "pkg": z["pkg"]}
+        try:
+            with watchdog(30):
+                loaded = griffe.load(z["pkg"], search_paths=[str(root)])
+        except BaseException as e:  # noqa: BLE001
+            if isinstance(e, KeyboardInterrupt):
+                raise
+            ctx.property_failure({**case0, "class": None}, {"what": "griffe.load raised or hung on a package with cyclic / dangling import aliases", "griffe": f"{type(e).__name__}: {e}"})
+            continue
+        for c, x in enumerate(z["xclasses"]):
+            if not x[2]:
+                continue
+            path = ".".join(x[0])
+            case = {**case0, "class": path}
+            obj = loaded[path[len(z["pkg"]) + 1:]]
+            obs = observe2(obj)
+            row = mout[c]
+            ctx.case({"stream": "alias-maze", "heap": z["heap"], "class": path}, True)
+            ctx.observe("stream", "alias-maze")
+            for r in row[1]:
+                ctx.observe("maze_resolution_outcome", r[0] if r[0] != "found" else "found:" + r[2])
+            if "resolved_exc" in obs or obs["mro"][0] == "exc":
+                ctx.property_failure(case, {"what": "resolving the bases / the MRO raised instead of dropping what cannot be resolved (or hung)",
+                                            "griffe": obs.get("resolved_exc") or obs["mro"]})
+                continue
+            m_res = [[p, {"cls": "cls", "mod": "mod"}.get(k, "other")] for p, k in row[0]]
+            if m_res != obs["resolved"]:
+                ctx.tie_failure("correspondence", "resolved_bases(model) vs Class.resolved_bases on an alias maze", {"model": m_res, "impl": obs["resolved"], "per_base": row[1]}, case)
+            paths = [".".join(y[0]) for y in z["xclasses"]]
+            ids = {p: i for i, p in enumerate(paths)}
+            g = obs["mro"]
+            g_ids = ["ok", [ids.get(p, -1) for p in g[1]]] if g[0] == "ok" else g
+            if row[4] != g_ids:
+                ctx.tie_failure("correspondence", "griffe_mro(model, program) vs Class.mro() on an alias maze", {"model": row[4], "impl": g}, case)
+
+
 # ------------------------------------------------------------------------------------------------ entry points
 
 def explore(ctx):
@@ -1812,6 +2015,7 @@ def explore(ctx):
     replay_findings(ctx)
     corpus = json.loads((Path(__file__).resolve().parents[2] / "corpus" / "C07" / "classic.json").read_text())["cases"]
     run_tables(ctx, "corpus", [c["table"] for c in corpus])
+    stream_corpus_programs(ctx)
     stream_merge(ctx)
     lap("raw-merge")
     stream_exhaustive(ctx, 5 if ctx.quick else 6)
@@ -1832,10 +2036,14 @@ def explore(ctx):
     lap("load-history")
     stream_programs(ctx, ctx.budget(350, 4000))
     lap("program (visitor + inspector)")
+    stream_mazes(ctx, ctx.budget(150, 1500))
+    lap("alias-maze")
     if not ctx.quick:
         sample = [["class", random_ordered_table(ctx.rng, nmax=5), 1] for _ in range(25)] + \
                  [["class", random_arbitrary_table(ctx.rng), 0] for _ in range(15)] + \
-                 [["merge", [[0, 1, 2], [1, 2], [0, 2]]], ["merge", [[0, 1], [1, 0]]]]
+                 [["merge", [[0, 1, 2], [1, 2], [0, 2]]], ["merge", [[0, 1], [1, 0]]]] + \
+                 [render_program(gen_program(ctx.rng, f"x{k}"))["request"] for k in range(12)] + \
+                 [gen_maze(ctx.rng, f"x{k}")["request"] for k in range(6)]
         ctx.cross_check_extraction(sample)
 
 
@@ -1945,6 +2153,21 @@ def _replay(ctx, data):
         return 0
     if "prog" in case:
         return _replay_program(ctx, case)
+    if case.get("stream") == "alias-maze":
+        import griffe
+        root = ctx.scratch / "replay"
+        write_package(root, case["pkg"], case["files"])
+        for rel, src in sorted(case["files"].items()):
+            print(f"--- {case['pkg']}/{rel}\n{src}")
+        try:
+            with watchdog(30):
+                loaded = griffe.load(case["pkg"], search_paths=[str(root)])
+                if case.get("class"):
+                    print("class  :", case["class"])
+                    print("griffe :", observe2(loaded[case["class"][len(case["pkg"]) + 1:]]))
+        except BaseException as e:  # noqa: BLE001
+            print("griffe raised / hung:", type(e).__name__, e)
+        return 0
     if "bases_of" in case:
         table = [[f"m.K{i}", list(bs), []] for i, bs in enumerate(case["bases_of"])]
     elif "table" in case:
